@@ -511,6 +511,62 @@ theorem supPassLines_idem (ls : List Line) : supPassLines (supPassLines ls) = su
       rw [supPassLines]
       simp only [hk, ih]
 
+/-! ### the normalised hint comment -/
+
+/-- When a marker is counted, the result contains `# paroxython: `. -/
+theorem normAux_marker (skip : Nat) (s : Text) (h : (normAux skip s).2 ≠ 0) :
+    ∃ a b, (normAux skip s).1 = a ++ hintMarker ++ b := by
+  induction s generalizing skip with
+  | nil => simp [normAux] at h
+  | cons c cs ih =>
+    cases skip with
+    | succ k =>
+      rw [normAux] at h ⊢
+      exact ih k h
+    | zero =>
+      rw [normAux] at h ⊢
+      cases hm : markerRest? (c :: cs) with
+      | some rest => exact ⟨[], (normAux (cs.length - rest.length) cs).1, by simp⟩
+      | none =>
+        rw [hm] at h
+        simp only at h ⊢
+        obtain ⟨a, b, hab⟩ := ih 0 h
+        exact ⟨c :: a, b, by simp [hab]⟩
+
+/-- The count is positive exactly when the marker regex matches at some position. -/
+theorem normAux_zero_count (s : Text) :
+    (normAux 0 s).2 ≠ 0 ↔ ∃ a b, s = a ++ b ∧ (markerRest? b).isSome = true := by
+  induction s with
+  | nil =>
+    simp only [normAux, ne_eq, not_true_eq_false, false_iff]
+    rintro ⟨a, b, h, hb⟩
+    have : b = [] := by
+      cases a <;> simp_all
+    subst this
+    simp [markerRest?] at hb
+  | cons c cs ih =>
+    rw [normAux]
+    cases hm : markerRest? (c :: cs) with
+    | some rest =>
+      simp only [ne_eq, Nat.add_eq_zero_iff, Nat.succ_ne_self, and_false, not_false_eq_true, true_iff]
+      exact ⟨[], c :: cs, rfl, by simp [hm]⟩
+    | none =>
+      simp only
+      rw [ih]
+      constructor
+      · rintro ⟨a, b, h, hb⟩
+        exact ⟨c :: a, b, by simp [h], hb⟩
+      · rintro ⟨a, b, h, hb⟩
+        cases a with
+        | nil =>
+          simp only [List.nil_append] at h
+          rw [← h, hm] at hb
+          simp at hb
+        | cons x xs =>
+          simp only [List.cons_append, List.cons.injEq] at h
+          exact ⟨xs, b, h.2, hb⟩
+
+
 /-! ### `suppress_first_comments` on lines -/
 
 def startsWithHash (l : Line) : Bool := l.head? == some '#'
@@ -568,14 +624,56 @@ theorem hintAhead_of_marker (tl x : Text) (h : (markerRest? ('#' :: tl)).isSome 
         · rename_i heq; simp only [List.cons.injEq] at heq; exact absurd heq.1 hc
         · simp at h
 
-theorem dropLeadingComments_spec : ∀ ls : List Line,
+theorem markerRest?_some_head {b : Text} (h : (markerRest? b).isSome = true) :
+    ∃ tl, b = '#' :: tl := by
+  unfold markerRest? at h
+  split at h
+  · exact ⟨_, rfl⟩
+  · simp at h
+
+/-- A later `#` of the line followed by the marker is found by the scan (no newline before it). -/
+theorem hashScan_of_marker (a tl x : Text) (ha : '\n' ∉ a)
+    (h : (markerRest? ('#' :: tl)).isSome = true) : hashScan (a ++ '#' :: tl ++ x) = true := by
+  induction a with
+  | nil =>
+    simp only [List.nil_append, List.cons_append, hashScan]
+    rw [if_neg (by decide), hintAhead_of_marker tl x h]; rfl
+  | cons c cs ih =>
+    have hc : c ≠ '\n' := by intro hc; subst hc; simp at ha
+    have hcs : '\n' ∉ cs := by intro h'; exact ha (by simp [h'])
+    simp only [List.cons_append, hashScan, if_neg hc]
+    rw [ih hcs, Bool.or_true]
+
+/-- A `#` line that carries the hint marker anywhere makes the look-ahead succeed. -/
+theorem hintAheadAny_of_isHint (tl x : Text) (hn : '\n' ∉ tl) (h : isHint ('#' :: tl) = true) :
+    hintAheadAny (tl ++ x) = true := by
+  have hc : (normAux 0 ('#' :: tl)).2 ≠ 0 := by simpa [isHint, normalizeComment] using h
+  obtain ⟨a, b, hab, hb⟩ := (normAux_zero_count ('#' :: tl)).mp hc
+  obtain ⟨btl, hbt⟩ := markerRest?_some_head hb
+  subst hbt
+  unfold hintAheadAny
+  cases a with
+  | nil =>
+    simp only [List.nil_append, List.cons.injEq, true_and] at hab
+    subst hab
+    rw [hintAhead_of_marker _ x hb]; rfl
+  | cons a0 a' =>
+    simp only [List.cons_append, List.cons.injEq] at hab
+    obtain ⟨_, htl⟩ := hab
+    subst htl
+    have ha' : '\n' ∉ a' := by intro h'; exact hn (by simp [h'])
+    have := hashScan_of_marker a' btl x ha' hb
+    rw [this, Bool.or_true]
+
+theorem dropLeadingComments_spec : ∀ ls : List Line, (∀ l ∈ ls, '\n' ∉ l) →
     ∃ d, ls = d ++ dropLeadingComments ls ∧
-      (∀ l ∈ d, l ∈ ls.takeWhile startsWithHash ∧ (markerRest? l).isSome = false) ∧
+      (∀ l ∈ d, l ∈ ls.takeWhile startsWithHash ∧ isHint l = false) ∧
       (ls ≠ [] → dropLeadingComments ls ≠ [])
-  | [] => ⟨[], by simp [dropLeadingComments]⟩
-  | [l] => ⟨[], by simp [dropLeadingComments]⟩
-  | l :: m :: rest => by
+  | [], _ => ⟨[], by simp [dropLeadingComments]⟩
+  | [l], _ => ⟨[], by simp [dropLeadingComments]⟩
+  | l :: m :: rest, hnl => by
     obtain ⟨d, hd, hmem, hne⟩ := dropLeadingComments_spec (m :: rest)
+      (fun x hx => hnl x (List.mem_cons_of_mem _ hx))
     rw [dropLeadingComments]
     split
     · rename_i hh
@@ -594,10 +692,12 @@ theorem dropLeadingComments_spec : ∀ ls : List Line,
         rcases hx with hx | hx
         · subst hx
           refine ⟨Or.inl rfl, ?_⟩
-          cases hm : (markerRest? ('#' :: tl)).isSome with
+          cases hm : isHint ('#' :: tl) with
           | false => rfl
           | true =>
-            have := hintAhead_of_marker tl ('\n' :: joinNl (m :: rest)) hm
+            have hntl : '\n' ∉ tl := by
+              intro h'; exact hnl ('#' :: tl) (by simp) (by simp [h'])
+            have := hintAheadAny_of_isHint tl ('\n' :: joinNl (m :: rest)) hntl hm
             rw [joinNl_cons_cons, this] at hah
             cases hah
         · exact ⟨Or.inr (hmem x hx).1, (hmem x hx).2⟩
